@@ -117,6 +117,9 @@ type PathQuery struct {
 	From   Point // start after this instruction; use Entry(fn) for function entry
 	Target func(ssa.Instruction) bool
 	Avoid  func(ssa.Instruction) bool
+	// AvoidEdge, if set, removes CFG edges from the search; it receives the
+	// normalised atoms that the edge establishes (see Fact).
+	AvoidEdge func(atoms []string) bool
 }
 
 // Entry is the point before the first instruction of fn.
@@ -175,7 +178,12 @@ func FindPath(q PathQuery) (found bool, hit ssa.Instruction, trace []int) {
 		if blocked {
 			continue
 		}
-		for _, nx := range s.b.Succs {
+		for si, nx := range s.b.Succs {
+			if q.AvoidEdge != nil && len(s.b.Succs) == 2 && s.b.Succs[0] != s.b.Succs[1] {
+				if ifi, ok := s.b.Instrs[len(s.b.Instrs)-1].(*ssa.If); ok && q.AvoidEdge(CondAtoms(ifi.Cond, si == 0)) {
+					continue
+				}
+			}
 			if !seen[nx] {
 				if _, ok := parent[nx]; !ok {
 					parent[nx] = s.b
